@@ -31,6 +31,7 @@ def build(tier="quick", seed=0):
     b.const_values[G_] = 6.6743e-11
     geometry_from_config(b)
     physical_geometry(b)
+    physical_slices(b)
     layer_mass_below(b)
     scaling(b)
     naming_and_frame(b)
@@ -129,6 +130,80 @@ def physical_geometry(b):
     V = lambda r, t: sp.Rational(4, 3) * T.PI * (r ** 3 - (r - t) ** 3)
     lemma(b, "shell_volumes_telescope", "V(R, T1 + T2) == V(R, T1) + V(R - T1, T2): contiguous shells add up to the enclosing shell (sum of layer / slice volumes = world volume by induction)",
           sp.Eq(V(Rr, T1 + T2), V(Rr, T1) + V(Rr - T1, T2)), fn=mfn.key)
+
+
+def physical_slices(b):
+    """the slice arrays built by the real PhysicalObjSpherical.set_geometry (build_slices=True), for enumerated slice counts, all reals symbolic:
+    radii strictly increasing and ending at the radius, slice volumes summing to the volume, enclosed mass non-decreasing and ending at
+    mass_below + mass, gravity of the last slice = surface gravity."""
+    from tpv.symex import NdArr
+    cls = ClassModel("PhysicalObjSpherical", FP)
+    c, node = cls.lookup("methods", "set_geometry")
+    mfn = MethodFn(c, node)
+    Rr, M, Tk, Mb = R("radius"), R("mass"), R("thickness"), R("mass_below")
+    pre = [sp.Gt(Rr, 0), sp.Gt(M, 0), sp.Gt(Tk, 0), sp.Le(Tk, Rr), sp.Ge(Mb, 0), sp.Gt(G_, 0)]
+
+    def linspace(ex, node, start, stop, num, endpoint=True):
+        n = int(num)
+        if n == 1:
+            return NdArr([sp.sympify(start)])
+        return NdArr([sp.sympify(start) + (sp.sympify(stop) - sp.sympify(start)) * sp.Rational(i, n - 1) for i in range(n)])
+
+    class SliceExec(Exec):
+        def ev_Subscript(self, node, env):
+            base = self.ev(node.value, env)
+            if isinstance(base, NdArr) and isinstance(node.slice, ast.Slice):
+                lo = self.ev(node.slice.lower, env) if node.slice.lower is not None else None
+                hi = self.ev(node.slice.upper, env) if node.slice.upper is not None else None
+                return NdArr(list(base)[(int(lo) if lo is not None else None):(int(hi) if hi is not None else None)])
+            return super().ev_Subscript(node, env)
+
+        def assign(self, t, v, env):
+            if isinstance(t, ast.Subscript):
+                base = self.ev(t.value, env)
+                if isinstance(base, NdArr):
+                    if isinstance(t.slice, ast.Slice):
+                        lo = int(self.ev(t.slice.lower, env)) if t.slice.lower is not None else 0
+                        hi = int(self.ev(t.slice.upper, env)) if t.slice.upper is not None else len(base)
+                        vals = list(v) if isinstance(v, (list, NdArr)) else [v] * (hi - lo)
+                        if len(vals) != hi - lo:
+                            raise SymExError("slice assignment of a different length")
+                        for k_, x_ in zip(range(lo, hi), vals):
+                            base[k_] = x_
+                    else:
+                        base[int(self.ev(t.slice, env))] = v
+                    return
+            return super().assign(t, v, env)
+    npx = Namespace("np", {"pi": T.PI, "linspace": linspace, "zeros_like": lambda ex, node, a_: NdArr([sp.Integer(0)] * len(a_)), "ones_like": lambda ex, node, a_: NdArr([sp.Integer(1)] * len(a_)),
+                           "asarray": lambda ex, node, a_: NdArr(list(a_))})
+    for N in (1, 2, 3, 5):
+        o = Obj(cls, _moi=None, _num_slices=sp.Integer(N))
+        ex = SliceExec(mfn, pre=pre + T.PI_FACTS, globals_env=dict(np=npx, G=G_, extensive_checks=False, float_eps=sp.Rational(1, 2 ** 52)))
+        try:
+            paths = ex.run(dict(self=o, radius=Rr, mass=M, thickness=Tk, mass_below=Mb, update_state_geometry=True, build_slices=True))
+        except SymExError as e:
+            b.subset_exits.append(f"{mfn.key} [slices={N}]: {e}")
+            return
+        rets = [p for p in paths if p.outcome == "return"]
+        if len(rets) != len(paths) or not rets:
+            b.subset_exits.append(f"{mfn.key} [slices={N}]: non-returning path")
+            continue
+        a = o._attrs
+        need = ("_radii", "_volume_slices", "_mass_slices", "_mass_below_slices", "_gravity_slices")
+        if not all(isinstance(a.get(k_), (list, NdArr)) and len(a[k_]) == N for k_ in need):
+            ground(b, f"{mfn.key}::slices_built[slices={N}]", mfn.key, "the five slice arrays are built with num_slices entries", False, detail=str({k_: type(a.get(k_)).__name__ for k_ in need}))
+            continue
+        rad, vs, ms, mbs, gs = [list(a[k_]) for k_ in need]
+        vol = sp.Rational(4, 3) * T.PI * (Rr ** 3 - (Rr - Tk) ** 3)
+        hy = pre + T.PI_FACTS + rets[0].hyps
+        incr = [sp.Gt(rad[0], Rr - Tk)] + [sp.Gt(rad[i + 1], rad[i]) for i in range(N - 1)]
+        b.add(Obligation(oid=f"{mfn.key}::ensures:radii_increasing[slices={N}]", fn=mfn.key, clause="radial slices strictly increasing, above the inner radius, the last one equal to the outer radius",
+                         goal=sp.And(*incr, sp.Eq(rad[-1], Rr)), hyps=hy))
+        b.add(Obligation(oid=f"{mfn.key}::ensures:slice_volumes_sum[slices={N}]", fn=mfn.key, clause="slice volumes sum to the shell volume; slice masses sum to the mass",
+                         goal=sp.And(sp.Eq(sum(vs), vol), sp.Eq(sum(ms), M)), hyps=hy, backends=("qqnf", "z3")))
+        mono = [sp.Ge(mbs[0], Mb)] + [sp.Ge(mbs[i + 1], mbs[i]) for i in range(N - 1)]
+        b.add(Obligation(oid=f"{mfn.key}::ensures:enclosed_mass_monotone[slices={N}]", fn=mfn.key, clause="enclosed mass never decreases with radius and ends at mass_below + mass; gravity of the last slice is the surface gravity",
+                         goal=sp.And(*mono, sp.Eq(mbs[-1], Mb + M), sp.Eq(gs[-1], G_ * (M + Mb) / Rr ** 2)), hyps=hy))
 
 
 def layer_mass_below(b):
